@@ -158,6 +158,14 @@ class LCDDocFilter(DocumentFilter):
       if (region.get_style(StyleProperties.Origin)) is not None:
         StyleProcessors.Origin.compute(None, region)
 
+      # compute extent
+      if region.get_style(StyleProperties.Extent) is None:
+        region.set_style(StyleProperties.Extent, initial_extent if initial_extent is not None \
+                         else StyleProperties.Extent.make_initial_value() )
+
+      StyleProcessors.Extent.compute(None, region)
+
+      # tts:position overrides tts:origin and is relative to the computed extent
       if (region.get_style(StyleProperties.Position)) is not None:
         StyleProcessors.Position.compute(None, region)
         region.set_style(StyleProperties.Position, None)
@@ -165,14 +173,7 @@ class LCDDocFilter(DocumentFilter):
       if region.get_style(StyleProperties.Origin) is None:
         region.set_style(StyleProperties.Origin, initial_origin if initial_origin is not None \
                          else StyleProperties.Origin.make_initial_value())
-
-      # compute extent
-      if (region.get_style(StyleProperties.Extent)) is not None:
-        StyleProcessors.Extent.compute(None, region)
-
-      if region.get_style(StyleProperties.Extent) is None:
-        region.set_style(StyleProperties.Extent, initial_extent if initial_extent is not None \
-                         else StyleProperties.Extent.make_initial_value() )
+        StyleProcessors.Origin.compute(None, region)
 
       # computer writing_mode and display_align
 
